@@ -591,8 +591,8 @@ func runWarm() int {
 			t := time.Now()
 			if _, _, err := build(&c, scratch, false); err != nil {
 				mu.Lock()
+				// not fatal: the check's own command rebuilds and reports
 				fmt.Fprintf(os.Stderr, "warm %s: %v\n", c.id, err)
-				rc = 2
 				mu.Unlock()
 				return
 			}
